@@ -133,6 +133,9 @@ def check_truth_tables(run, cx, cfg):
         name = key.rsplit('::', 1)[-1]
         if name in ('Output', 'Buffered', 'Converter', 'BranchRcA', 'BranchRcB', 'BranchRefA', 'BranchRefB'):
             continue     # C13 / C14 / C08 / C12 own these predicates
+        if new_type(cx.facts, key):
+            run.note('impl Signal for %s is new (no such type on the reference tree): its exhaustion predicate is not in the table of this check, not examined' % key)
+            continue
         n += 1
         if key == "&'a mut S":
             srcs = {('ref', (('P', ('deref', SELF)), ())): 'inner'}
